@@ -134,6 +134,7 @@ ValueStore::ValueStore(IdentityConstraint* const ic,
     , fIdentityConstraint(ic)
     , fValues(manager)
     , fValueTuples(0)
+    , fConflicts(0)
     , fScanner(scanner)
     , fMemoryManager(manager)
 {
@@ -144,6 +145,7 @@ ValueStore::ValueStore(IdentityConstraint* const ic,
 ValueStore::~ValueStore()
 {
     delete fValueTuples;
+    delete fConflicts;
 }
 
 // ---------------------------------------------------------------------------
@@ -219,6 +221,56 @@ void ValueStore::append(const ValueStore* const other) {
     }
 }
 
+void ValueStore::takeOver(ValueStore* const other) {
+
+    delete fValueTuples;
+    fValueTuples = other->fValueTuples;
+    other->fValueTuples = 0;
+}
+
+void ValueStore::appendFromChild(ValueStore* const child) {
+
+    if (!child->fValueTuples) {
+        return;
+    }
+
+    if (!fValueTuples && !fConflicts) {
+        takeOver(child);
+        return;
+    }
+
+    RefHashTableOfEnumerator<FieldValueMap, ICValueHasher> iter(child->fValueTuples, false, fMemoryManager);
+    while(iter.hasMoreElements())
+    {
+        FieldValueMap& valueMap = iter.nextElement();
+
+        if (fConflicts && fConflicts->get(&valueMap)) {
+            continue;
+        }
+
+        FieldValueMap* pICItem = new (fMemoryManager) FieldValueMap(valueMap);
+
+        if (contains(&valueMap)) {
+
+            // an earlier child has handed up the same value: drop both
+            if (!fConflicts) {
+                fConflicts = new (fMemoryManager) RefHashTableOf<FieldValueMap, ICValueHasher>(107, true, ICValueHasher(fMemoryManager), fMemoryManager);
+            }
+
+            fConflicts->put(pICItem, pICItem);
+            fValueTuples->removeKey(pICItem);
+        }
+        else {
+
+            if (!fValueTuples) {
+                fValueTuples = new (fMemoryManager) RefHashTableOf<FieldValueMap, ICValueHasher>(107, true, ICValueHasher(fMemoryManager), fMemoryManager);
+            }
+
+            fValueTuples->put(pICItem, pICItem);
+        }
+    }
+}
+
 void ValueStore::startValueScope() {
 
     fValuesCount = 0;
@@ -267,6 +319,8 @@ void ValueStore::clear()
     fValues.clear();
     if(fValueTuples)
         fValueTuples->removeAll();
+    if(fConflicts)
+        fConflicts->removeAll();
 }
 
 // ---------------------------------------------------------------------------
